@@ -214,7 +214,7 @@ def replay(case, ctx):
 
 
 def plan(tier, seed):
-    n, per = (8, 1000) if tier == "quick" else (16, 40000)
+    n, per = (16, 2500) if tier == "quick" else (16, 40000)
     return [{"kind": "names", "n": per, "perms": 6 if tier == "quick" else 20} for _ in range(n)]
 
 
